@@ -4,6 +4,7 @@
    whole wire streams is decided by an independent recogniser run over the bytes the real server hands
    to write() in every history (props/simgen.py recognise_responses). *)
 From Via Require Import M_Char M_Encode M_Parse M_Receive M_Server P_Server.
+From Via Require Import M_Client P_Client.
 Local Open Scope N_scope.
 
 Theorem C04_chunk_frame : forall c, slots_bytes c [SHeader; SBody; SCrlf] = c_tx_header c ++ c_tx_body c ++ [13; 10].
@@ -13,4 +14,21 @@ Example C04_example_chunk_header : chunk_header_string 26 [120; 61; 49] = [49; 9
   /\ last_chunk_string [] [] = [48; 13; 10; 13; 10].
 Proof. vm_compute. split; reflexivity. Qed.
 
+(* ---- client requests ---- *)
+Theorem C04_client_request_framing : forall o ov m u h b,
+  let r := {| tq_method := m; tq_uri := u; tq_major := 49; tq_minor := 49;
+              tq_headers := h ++ to_header hf_HEADER_HOST (http_host_name o) |} in
+  let n := if N.eqb ov 0 then 0 else nlen b in
+  request_bytes o ov m u h b =
+    request_line_string r ++ tq_headers r
+    ++ (if request_adds_content_length r then content_length_line n else []) ++ CRLF
+    ++ (if N.eqb ov 0 then [] else b).
+Proof. exact client_request_framing. Qed.
+
+Theorem C04_client_chunk_framing : forall d x,
+  chunk_header_string (nlen d) x ++ d ++ CRLF = to_hex_string (nlen d) ++ ext_string x ++ CRLF ++ d ++ CRLF.
+Proof. exact client_chunk_framing. Qed.
+
 Print Assumptions C04_chunk_frame.
+Print Assumptions C04_client_request_framing.
+Print Assumptions C04_client_chunk_framing.
